@@ -102,8 +102,15 @@ def queue_rules(r, ctx, crate, adt, qfield, tag, regex):
         raise AnchorMissing("%s::pop: pop_front" % tag)
     sw = pop.result_switches(pf[0])
     ve = pop.variant_edges(sw[0]["block"]) if sw else None
+    some_edge = None
+    if ve and "Some" in ve:
+        some_edge = ve["Some"]
+    else:
+        te = pop.try_edges(pf[0])          # `events.pop_front()?`
+        if te:
+            some_edge = te[0]
     inc = [(i, line, describe_rvalue(pop, rv)) for i, j, p, rv, line in pop.assigns() if p[1] and describe_place(pop, p).endswith("head_epoch")]
-    r.check(ve is not None and len(inc) == 1 and inc[0][2].startswith("wrapping_add(") and inc[0][2].endswith(", 1)") and pop.dominates(ve["Some"], inc[0][0]) and pop.must_pass([ve["Some"]], {inc[0][0]})[0], "%s/pop/head_epoch+1" % tag, pf[0].loc(),
+    r.check(some_edge is not None and len(inc) == 1 and inc[0][2].startswith("wrapping_add(") and inc[0][2].endswith(", 1)") and pop.dominates(some_edge, inc[0][0]) and pop.must_pass([some_edge], {inc[0][0]})[0], "%s/pop/head_epoch+1" % tag, pf[0].loc(),
             "every popped entry advances head_epoch by one", "pop does not advance head_epoch exactly once per popped entry")
     rms = [c for c in pop.calls if c.name == "remove" and describe_operand(pop, c.args[0]).endswith(".epoch_map")]
     vs = set()
